@@ -52,11 +52,12 @@ pub fn gen(rng: &mut Rng, tier: Tier, idx: u64) -> Case {
     c.cancel = gen_cancel(rng, &script, cp);
     c.read_script = script;
     c.read_tail = tail;
+    c.reader_style = rng.below(3) as u8;
     let wp = *rng.pick(&[0u64, 200]);
     let (ws, wt) = gen_write_script(rng, len, wp, 0);
     c.write_script = ws;
     c.write_tail = wt;
-    c.n = vec![rng.below(8) as i64];
+    c.n = vec![rng.below(9) as i64];
     c
 }
 
@@ -125,7 +126,7 @@ fn run_g<C: Codec>(c: &Case, trace: bool) -> RunOut {
             let ok = match fe {
                 Fe::Err { e, .. } => {
                     let n = C::norm(e);
-                    n.io_kind == Some(kind) && !n.eof
+                    n.io_kind == Some(kind) && (!n.eof || kind == io::ErrorKind::UnexpectedEof)
                 }
                 _ => false,
             };
